@@ -54,6 +54,50 @@ func pickPipeCfg() (*pipeCfg, bool) {
 	return cfg, true
 }
 
+// pickAdapterCfg: a smaller configuration family that still selects every adapter path: client form x
+// single target protocol x method kind x {re-framing only, re-encoding (codec differs), re-compression
+// (client compressed, service without compression)}.
+func pickAdapterCfg() (*pipeCfg, bool) {
+	if verifTier() == 1 {
+		return pickPipeCfg()
+	}
+	cfg := &pipeCfg{maxMsg: 4096}
+	cfg.client = verifChoose("client", 6)
+	cfg.svcProtos = []Protocol{pipeProtocols[verifChoose("target", 4)]}
+	unaryClient := cfg.client == cfConnectUnary || cfg.client == cfConnectGet || cfg.client == cfREST
+	if unaryClient {
+		cfg.kind = fkUnary
+	} else if verifChoose("kind", 2) == 1 {
+		cfg.kind = fkBidi
+	}
+	cfg.clientCodec = CodecProto
+	if cfg.client == cfREST {
+		cfg.clientCodec = CodecJSON
+	}
+	cfg.svcCodecs = []string{cfg.clientCodec}
+	switch verifChoose("adapter", 3) {
+	case 1: // re-encode
+		if cfg.clientCodec == CodecProto {
+			cfg.svcCodecs = []string{CodecJSON}
+		} else {
+			cfg.svcCodecs = []string{CodecProto}
+		}
+	case 2: // de-compress
+		cfg.clientComp = true
+	default: // re-frame only, compression kept
+		cfg.clientComp = verifChoose("comp", 2) == 1
+		cfg.svcComp = cfg.clientComp
+	}
+	if cfg.client == cfConnectGet {
+		cfg.idem, cfg.hasIdem = 1, true
+	}
+	target, _, _ := refNegotiate(cfg)
+	if target == ProtocolREST && cfg.kind != fkUnary {
+		return nil, false
+	}
+	return cfg, true
+}
+
 // pickMsgs: 0..maxF messages with symbolic content; per-message compressed flag forked when the
 // stream declared a compression (the dimension real clients never vary).
 func pickMsgs(name string, enveloped bool, declaredComp bool, unaryKind bool) []wireMsg {
